@@ -517,14 +517,17 @@ def _semantic_id(prog, m, c, fn, idname, extra):
         why = uses(tkey(leaf))
         other_use = False
         for g, pol in pc:
-            gk = tkey(g); r_ = repr(gk)
+            # (paths_of hands the guards over as the text of their keys)
+            r_ = g if isinstance(g, str) else repr(tkey(g))
             if ids not in r_: continue
-            plain_test = isinstance(gk, tuple) and (gk[:2] == ('opq', 'in') and gk[2] == idk or gk[:3] == ('opq', 'cmp', 'Eq'))
-            if isinstance(gk, tuple) and gk[:2] == ('opq', 'in') and gk[2] == idk and pol: why.append('membership established')
-            elif isinstance(gk, tuple) and gk[:3] == ('opq', 'cmp', 'Eq') and pol and ('zero' in r_ or 'ground' in r_): why.append('equals the reference label')
-            elif plain_test: pass          # a membership / equality test that FAILED on this path establishes nothing
+            is_in = r_.startswith("('opq', 'in', " + ids + ',')
+            is_eq = r_.startswith("('opq', 'cmp', 'Eq',")
+            if is_in and pol: why.append('membership established')
+            elif is_eq and pol and ('zero' in r_ or 'ground' in r_): why.append('equals the reference label')
+            elif is_in or is_eq: pass          # a membership / equality test that FAILED on this path establishes nothing
             else:
-                u_ = uses(gk); why += u_
+                u_ = ['raising lookup'] if ("('[]', " in r_ and (", " + ids + ")") in r_) else []
+                why += u_
                 if not u_: other_use = True
         if why: verdicts.append(True)
         elif ids not in repr(tkey(leaf)) and not other_use: verdicts.append(False)
